@@ -26,8 +26,14 @@ def run(ctx):
             # a query written as a delegation to another member of the family on the same type (has_field(x) = field_type(x).is_some())
             # inherits that member's treatment of unions
             deleg = sorted({fam[c.callee] for c in b.calls if c.callee in fam and fam[c.callee] != name})
-            if deleg and not enum_switches(b, TYPE):
+            if len(deleg) == 1 and not enum_switches(b, TYPE):
                 res.ok("fold:%s|delegates" % name, b.where(), "delegates to Type::%s" % ", ".join(deleg))
+                continue
+            if len(deleg) > 1:
+                res.bad("fold:%s|recombines" % name, "Type::%s has no case for unions any more and answers by combining Type::%s: each of "
+                                                     "those folds the members of a union on its own, so the combination can say yes where "
+                                                     "one member alone would say no (a union then answers differently from its members)"
+                        % (name, ", Type::".join(deleg)), b.where())
                 continue
         if not res.anchor(bool(sws), "match arm for Type::Multi in " + path):
             continue
